@@ -254,57 +254,111 @@ func VerifC11_Release_AmongStillWaiting() {
 	verif.Reach("end")
 }
 
-// verifReleaseKeepsWaiters: two callers parked (an arbitrary subset has just given up and no longer
-// listens), up to three releases whose delegate.Acquire on behalf of the next waiter is granted or
-// refused arbitrarily (refused = another caller barged in between the token's release and the
-// re-acquire).  Returns, per waiter, whether it was served and whether it is still in the backlog.
-func verifReleaseKeepsWaiters(releases int) (listening, served, queued [2]bool, q *QueueBlockingLimiter) {
-	d := &recLimiter{}
+// verifReleaseKeepsWaiters: n callers parked in arrival order (an arbitrary subset has just given up
+// and no longer listens), `releases` releases whose delegate.Acquire on behalf of the next waiter is
+// granted or refused arbitrarily (refused = another caller barged in between the token's release and
+// the re-acquire, or the limit shrank).  Afterwards every caller that was not served gives up (calls
+// the eviction function Acquire would call on time-out / cancellation).  Reports, per waiter, whether
+// it was served, whether it was still in the backlog before giving up, and whether it had left the
+// backlog after giving up.
+type verifRelObs struct {
+	n                                  int
+	lifo                               bool
+	listening, served, queued, cleared [3]bool
+	q                                  *QueueBlockingLimiter
+	d                                  *recLimiter
+	lenAfterGiveUp                     int
+}
+
+func verifReleaseKeepsWaiters(n, releases int) (o verifRelObs) {
+	o.n = n
+	o.d = &recLimiter{}
 	verifGrantAll = false
-	ord := []QueueOrdering{OrderingFIFO, OrderingLIFO}[verif.Choice("ordering", 2)]
-	q = NewQueueBlockingLimiterFromConfig(d, QueueLimiterConfig{Ordering: ord})
-	var chans [2]<-chan core.Listener
-	var ctxs [2]context.Context
-	for i := 0; i < 2; i++ {
+	o.lifo = verif.Choice("ordering", 2) == 1
+	ord := OrderingFIFO
+	if o.lifo {
+		ord = OrderingLIFO
+	}
+	o.q = NewQueueBlockingLimiterFromConfig(o.d, QueueLimiterConfig{Ordering: ord})
+	q := o.q
+	var chans [3]<-chan core.Listener
+	var ctxs [3]context.Context
+	var evicts [3]EvictFunc
+	for i := 0; i < n; i++ {
 		ctxs[i] = context.WithValue(context.Background(), "waiter", i)
-		_, chans[i] = q.backlog.push(ctxs[i])
-		listening[i] = verif.Bool("listening")
-		verif.Offer(chans[i], listening[i], nil)
+		evicts[i], chans[i] = q.backlog.push(ctxs[i])
+		o.listening[i] = verif.Bool("listening")
+		verif.Offer(chans[i], o.listening[i], nil)
 	}
 	for k := 0; k < releases; k++ {
 		(&QueueBlockingListener{delegateListener: &recListener{}, limiter: q}).OnSuccess()
 	}
-	for i := 0; i < 2; i++ {
+	inBacklog := func(i int) bool {
+		for e := q.backlog.list.Front(); e != nil; e = e.Next() {
+			if e.Value.(*queueElement).ctx == ctxs[i] {
+				return true
+			}
+		}
+		return false
+	}
+	for i := 0; i < n; i++ {
 		verif.Offer(chans[i], false, nil)
 		select {
 		case l, ok := <-chans[i]:
-			served[i] = ok && l != nil
+			o.served[i] = ok && l != nil
 		default:
 		}
-		for e := q.backlog.list.Front(); e != nil; e = e.Next() {
-			if e.Value.(*queueElement).ctx == ctxs[i] {
-				queued[i] = true
-			}
-		}
+		o.queued[i] = inBacklog(i)
 	}
+	// everybody who was not served gives up now
+	for i := 0; i < n; i++ {
+		if !o.served[i] {
+			evicts[i]()
+		}
+		o.cleared[i] = !inBacklog(i)
+	}
+	o.lenAfterGiveUp = int(q.backlog.len())
 	return
 }
 
 // VerifC12_Release_KeepsUnservedWaitersQueued: the backlog contains exactly the callers currently
 // blocked: a caller that is still listening and was not served by the releases so far is still in
 // the backlog (a release that fails to re-acquire must not drop it), a served caller has left it,
-// and the reported size is the number of elements.
+// and a caller that gives up afterwards (its own eviction function) really leaves: no ghost entry
+// stays behind to be counted by queue_size or to refuse later callers.
 //
 //verif:harness property=C12 theory=bv tier=quick replay=engine
 func VerifC12_Release_KeepsUnservedWaitersQueued() {
 	n := 1 + verif.Choice("releases", 2)
-	listening, served, queued, q := verifReleaseKeepsWaiters(n)
-	cnt := 0
+	o := verifReleaseKeepsWaiters(2, n)
 	for i := 0; i < 2; i++ {
-		verif.Assert("blocked-caller-stays-in-backlog", verif.Implies(verif.And(listening[i], verif.Not(served[i])), queued[i]))
-		verif.Assert("served-caller-left-backlog", verif.Implies(served[i], verif.Not(queued[i])))
-		cnt += verif.B2I(queued[i])
+		verif.Assert("blocked-caller-stays-in-backlog", verif.Implies(verif.And(o.listening[i], verif.Not(o.served[i])), o.queued[i]))
+		verif.Assert("served-caller-left-backlog", verif.Implies(o.served[i], verif.Not(o.queued[i])))
+		verif.Assert("caller-that-gave-up-left-backlog", o.cleared[i])
 	}
-	verif.Assert("queue-size-is-elements", int(q.backlog.len()) == cnt)
+	verif.Assert("backlog-empty-once-nobody-is-blocked", o.lenAfterGiveUp == 0)
+	verif.Reach("end")
+}
+
+// VerifC11_Releases_KeepArrivalOrder: three callers parked in arrival order, up to three releases of
+// which any may fail to re-acquire (barging caller / shrunken limit): refused hand-offs do not
+// disturb the order - whenever a caller has been served, every still-listening caller ahead of it in
+// the configured order has been served too.
+//
+//verif:harness property=C11 theory=bv tier=quick replay=engine
+func VerifC11_Releases_KeepArrivalOrder() {
+	n := 1 + verif.Choice("releases", 3)
+	o := verifReleaseKeepsWaiters(3, n)
+	for i := 0; i < 3; i++ {
+		for j := 0; j < 3; j++ {
+			ahead := j < i
+			if o.lifo {
+				ahead = j > i
+			}
+			if ahead {
+				verif.Assert("refused-handoffs-keep-the-order", verif.Implies(verif.And(o.served[i], o.listening[j]), o.served[j]))
+			}
+		}
+	}
 	verif.Reach("end")
 }
